@@ -209,6 +209,16 @@ def _single_indices(shape):
 _RANK = {0: "", 1: "", 2: "[jacobian of a matrix-valued function]"}
 
 
+def _strided(g):
+    """the same values as a non-contiguous view (every other element of a twice as long last axis)"""
+    big = np.full(g.shape[:-1] + (2 * g.shape[-1],), np.nan)
+    big[..., ::2] = g
+    return big[..., ::2]
+
+
+_LAYOUTS = (("Fortran-ordered", np.asfortranarray), ("strided view", _strided))
+
+
 def check_routes(P, f, prov, tag, caps, callsem="grid", pointfam=False, light=False, what=""):
     """compare every route in `caps` of the function object f with the reference provider.
     tag: key prefix of the object kind; pointfam: the scattered-point routes go through tp_bsp_*_pointwise and
@@ -263,6 +273,13 @@ def check_routes(P, f, prov, tag, caps, callsem="grid", pointfam=False, light=Fa
     if "pointwise_eval" in caps:
         key = fam or (tag + ":pointwise_eval")
         run("pointwise_eval", key, "pointwise_eval(meshgrid-shaped points)", lambda: f.pointwise_eval(xyz_mesh), prov.val, prov.val_s)
+        # the same points in other memory layouts (Fortran order, every-other-element view): the layout of the
+        # coordinate arrays is not part of their meaning
+        for lname, lay in _LAYOUTS:
+            if d == 1 and lname == "Fortran-ordered":
+                continue
+            run("pointwise_eval", key, "pointwise_eval(meshgrid-shaped points, %s)" % lname,
+                lambda: f.pointwise_eval([lay(g) for g in xyz_mesh]), prov.val, prov.val_s)
         if not light:
             run("pointwise_eval", key, "pointwise_eval(scrambled grid points)", lambda: f.pointwise_eval(xyz_perm), flat(prov.val, ()), prov.val_s)
             for t in singles[:3]:
@@ -272,6 +289,11 @@ def check_routes(P, f, prov, tag, caps, callsem="grid", pointfam=False, light=Fa
         key = famj or (tag + ":pointwise_jacobian")
         run("pointwise_jacobian", key, "pointwise_jacobian(meshgrid-shaped points)", lambda: f.pointwise_jacobian(xyz_mesh),
             prov.jac, prov.jac_s, sq)
+        for lname, lay in _LAYOUTS:
+            if d == 1 and lname == "Fortran-ordered":
+                continue
+            run("pointwise_jacobian", key, "pointwise_jacobian(meshgrid-shaped points, %s)" % lname,
+                lambda: f.pointwise_jacobian([lay(g) for g in xyz_mesh]), prov.jac, prov.jac_s, sq)
         if not light:
             run("pointwise_jacobian", key, "pointwise_jacobian(scrambled grid points)", lambda: f.pointwise_jacobian(xyz_perm),
                 flat(prov.jac, (d,)), prov.jac_s, sq)
